@@ -27,6 +27,49 @@ DayNumberYmd(y, m, d) == DaysBeforeYear(y) + DaysBeforeMonth(y, m) + (d - 1)
 MonthOf(y, doy) == CHOOSE m \in 1..12 : DaysBeforeMonth(y, m) < doy /\ doy <= DaysBeforeMonth(y, m) + DaysInMonth(y, m)
 DayOf(y, doy)   == doy - DaysBeforeMonth(y, MonthOf(y, doy))
 
+(* ---------------- text encodings (characters as one-character strings) ---------------- *)
+Digit == <<"0", "1", "2", "3", "4", "5", "6", "7", "8", "9">>
+RECURSIVE DigitsOf(_)
+DigitsOf(n) == IF n < 10 THEN <<Digit[n + 1]>> ELSE DigitsOf(n \div 10) \o <<Digit[(n % 10) + 1]>>
+Rep(ch, k)  == [i \in 1..k |-> ch]
+RJust(t, w, ch) == Rep(ch, w - Len(t)) \o t
+LJust(t, w)     == t \o Rep(" ", w - Len(t))
+RECURSIVE Join(_)
+Join(t) == IF t = <<>> THEN "" ELSE t[1] \o Join(Tail(t))
+\* an I4 integer field as a FORTRAN writer produces it (right-justified): blank padded, or blank + two zero-padded digits.
+\* (A left-justified year would fill its field and touch the month: not an encoding the format admits for this composite.)
+DateStyles == {"blank", "zero2"}
+I4(n, style) == CASE style = "blank" -> RJust(DigitsOf(n), 4, " ")
+                  [] style = "zero2" -> IF n < 100 THEN RJust(RJust(DigitsOf(n), 2, "0"), 4, " ") ELSE RJust(DigitsOf(n), 4, " ")
+                  [] style = "left"  -> LJust(DigitsOf(n), 4)
+DateText(style, y, m, d) == I4(y, style) \o I4(m, style) \o I4(d, style)      \* platform position: "YYYY  MM  DD" as 3 x I4
+\* value of the digits of a field, blanks ignored (what "an I4 integer" means)
+DigitVal(c) == CHOOSE v \in 0..9 : Digit[v + 1] = c
+RECURSIVE NumOf(_, _)
+NumOf(t, acc) == IF t = <<>> THEN acc ELSE IF t[1] = " " THEN NumOf(Tail(t), acc) ELSE NumOf(Tail(t), 10 * acc + DigitVal(t[1]))
+ParseDate(t) == <<NumOf(SubSeq(t, 1, 4), 0), NumOf(SubSeq(t, 5, 8), 0), NumOf(SubSeq(t, 9, 12), 0)>>
+\* a decoder that first drops the blanks and then cuts "YYYYMMDD" greedily (month = two digits when they form 10..12): the
+\* defective alternative, kept so that TLC can show the family contains dates that tell the two apart
+NoBlanks(t) == SelectSeq(t, LAMBDA c : c # " ")
+GreedyParse(t) ==
+    LET u == NoBlanks(t)
+        y == NumOf(SubSeq(u, 1, 4), 0)
+        r == SubSeq(u, 5, Len(u))
+        two == Len(r) >= 3 /\ NumOf(SubSeq(r, 1, 2), 0) \in 10..12
+        one == Len(r) >= 2 /\ ~two
+    IN  IF Len(r) = 4 THEN <<y, NumOf(SubSeq(r, 1, 2), 0), NumOf(SubSeq(r, 3, 4), 0)>>
+        ELSE IF two THEN <<y, NumOf(SubSeq(r, 1, 2), 0), NumOf(SubSeq(r, 3, Len(r)), 0)>>
+        ELSE <<y, NumOf(SubSeq(r, 1, 1), 0), NumOf(SubSeq(r, 2, Len(r)), 0)>>
+\* compact text YYYYMMDDhhmmss + k decimals of the second (k = 2 volume directory, 3 leader scene centre)
+Two(n) == RJust(DigitsOf(n), 2, "0")
+CompactText(y, m, d, hh, mm, ss, frac, k) == RJust(DigitsOf(y), 4, "0") \o Two(m) \o Two(d) \o Two(hh) \o Two(mm) \o Two(ss) \o RJust(DigitsOf(frac), k, "0")
+RECURSIVE Pow10(_)
+Pow10(k) == IF k = 0 THEN 1 ELSE 10 * Pow10(k - 1)
+\* decoding by position, the fraction as an exact decimal: microseconds = digits * 10^(6-k)
+ParseCompact(t, k) == [ y |-> NumOf(SubSeq(t, 1, 4), 0), m |-> NumOf(SubSeq(t, 5, 6), 0), d |-> NumOf(SubSeq(t, 7, 8), 0),
+                        hh |-> NumOf(SubSeq(t, 9, 10), 0), mm |-> NumOf(SubSeq(t, 11, 12), 0), ss |-> NumOf(SubSeq(t, 13, 14), 0),
+                        us |-> NumOf(SubSeq(t, 15, 14 + k), 0) * Pow10(6 - k) ]
+
 CONSTANTS Years, Doys, Millis, Micros
 
 VARIABLES inst, pc
@@ -36,7 +79,8 @@ Init == inst \in Instants /\ pc = "encode"
 Encoded(i) == [ y |-> i.y, doy |-> i.doy, ms |-> i.ms, us |-> i.us,
                 month |-> MonthOf(i.y, i.doy), day |-> DayOf(i.y, i.doy),
                 daynumber |-> DayNumber(i.y, i.doy),
-                hh |-> i.ms \div 3600000, mm |-> (i.ms \div 60000) % 60, ss |-> (i.ms \div 1000) % 60, mmm |-> i.ms % 1000 ]
+                hh |-> i.ms \div 3600000, mm |-> (i.ms \div 60000) % 60, ss |-> (i.ms \div 1000) % 60, mmm |-> i.ms % 1000,
+                date_text |-> [st \in DateStyles |-> Join(DateText(st, i.y, MonthOf(i.y, i.doy), DayOf(i.y, i.doy)))] ]
 Step == pc = "encode" /\ pc' = "done" /\ UNCHANGED inst
 Next == Step \/ (pc = "done" /\ UNCHANGED vars)
 Spec == Init /\ [][Next]_vars
@@ -46,4 +90,14 @@ AllDecodersAgree == LET e == Encoded(inst) IN DayNumberYmd(e.y, e.month, e.day) 
 DayInMonth       == LET e == Encoded(inst) IN e.day \in 1..DaysInMonth(e.y, e.month)
 LeapDay          == (inst.doy = 60 /\ IsLeap(inst.y)) => (Encoded(inst).month = 2 /\ Encoded(inst).day = 29)
 LastDay          == inst.doy = DaysInYear(inst.y) => (Encoded(inst).month = 12 /\ Encoded(inst).day = 31)
+\* the text encodings decode back to the same day, in every style; the compact texts keep their decimals exactly
+DateTextRoundTrip == LET e == Encoded(inst) IN \A st \in DateStyles : ParseDate(DateText(st, e.y, e.month, e.day)) = <<e.y, e.month, e.day>>
+CompactRoundTrip  == LET e == Encoded(inst)
+                         t2 == CompactText(e.y, e.month, e.day, e.hh, e.mm, e.ss, e.mmm \div 10, 2)
+                         t3 == CompactText(e.y, e.month, e.day, e.hh, e.mm, e.ss, e.mmm, 3)
+                     IN /\ Len(t2) = 16 /\ Len(t3) = 17
+                        /\ ParseCompact(t2, 2).us = (e.mmm \div 10) * 10000 /\ ParseCompact(t3, 3).us = e.mmm * 1000
+                        /\ ParseCompact(t3, 3).d = e.day /\ ParseCompact(t3, 3).m = e.month /\ ParseCompact(t2, 2).ss = e.ss
+\* NOT an invariant of the family (MC_Calendar_bug expects a violation): the blank-dropping greedy decoder agrees
+GreedyAgrees == LET e == Encoded(inst) IN \A st \in DateStyles : GreedyParse(DateText(st, e.y, e.month, e.day)) = <<e.y, e.month, e.day>>
 =============================================================================
